@@ -79,7 +79,7 @@ func main() {
 		if r.Quick() {
 			specs = [][2]interface{}{{"s2f2q2", 5}, {"s1f4q1", 5}, {"default", 5}}
 		} else {
-			specs = [][2]interface{}{{"s2f2q2", 6}, {"s1f4q1", 6}, {"default", 6}, {"default-nocache", 5}, {"s3f2q1-utxo1", 5}}
+			specs = [][2]interface{}{{"s2f2q2", 7}, {"s1f4q1", 7}, {"default", 6}, {"default-nocache", 6}, {"s3f2q1-utxo1", 6}}
 		}
 		if *flagOnly != "" {
 			var keep [][2]interface{}
